@@ -108,9 +108,18 @@ def run_case(case):
     from indi.transport.server import tty as stty
 
     logging.disable(logging.CRITICAL)
+    log_handler = []
 
     async def main():
         router = Router()
+        if case.get("loghandler"):
+            # the deployment of the shipped example servers: library log records are forwarded to the clients as INDI
+            # <message> notices by indi.logging.Handler
+            import indi.logging as ilog
+            logging.disable(logging.NOTSET)
+            h = ilog.Handler(router, level=logging.WARNING)
+            logging.getLogger("indi").addHandler(h)
+            log_handler.append(h)
         dev_log = []
         raise_flag = {"on": False}
 
@@ -207,11 +216,38 @@ def run_case(case):
         stcp.ConnectionHandler.connections[:] = []
         return obs
 
-    return asyncio.run(main())
+    try:
+        return asyncio.run(main())
+    finally:
+        for h in log_handler:
+            logging.getLogger("indi").removeHandler(h)
+        logging.disable(logging.CRITICAL)
 
 
 def run_impl(case, outcome):
     obs = run_case(case)
+    if case.get("loghandler"):
+        # log notices add traffic the router model does not describe: only the oracles are asked
+        outcome.count("with-log-handler")
+        qs = []
+        kind0 = [s[2] for s in case["script"] if s[0] == "connect" and s[1] == 0][0]
+        for n, o in enumerate(obs):
+            if case["script"][n][0] == "connect":
+                continue
+            registered = "0" in o["clients"].split(",")
+            is_open = kind0 != "tcp" or "0" not in o["closed"].split(",")
+            running = "0" not in o["done"].split(",")
+            qs.append(Query("spec c12conn %s %s %s" % tuple("True" if b else "False" for b in (registered, is_open, running)), "True", "oracle",
+                            "with indi.logging.Handler installed: after step %d %r the sending connection is registered=%s open=%s serving=%s"
+                            % (n, case["script"][n][:3], registered, is_open, running)))
+        # the valid write after the hostile message must still reach device A
+        last_valid = [n for n, st in enumerate(case["script"]) if st[0] == "recv" and len(st) > 3 and st[3] and st[3][0] == "newTextVector"]
+        if last_valid:
+            n = last_valid[-1]
+            qs.append(Query("spec istrue %s" % ("True" if "d0" in obs[n]["recipients"] else "False"), "True", "oracle",
+                            "with indi.logging.Handler installed: a valid write after the hostile message did not reach its device"))
+        outcome.nontrivial.add(("loghandler", str(case["script"])))
+        return qs
     # the same session for the router model
     ops = ["D 0 " + enc_opt("A"), "D 1 " + enc_opt("B")]
     per_step = []       # index of the model op that corresponds to each script step (None: no router operation)
@@ -266,8 +302,8 @@ def run_impl(case, outcome):
                 continue
             qs.append(Query("router deliveries %d %s" % (idx, "%d %s" % (idx + 1, " ".join(ops[:idx + 1]))), " ".join(o["recipients"]), "corr",
                             "deliveries of step %d %r" % (n, st)))
-            if st[0] == "dev":
-                # oracle (C18 "every other connection keeps receiving all device traffic", C05): who must get this message,
+            if st[0] in ("dev", "recv"):
+                # oracle (C18 "every other connection keeps receiving all device traffic", C05, C04): who must get this message,
                 # computed by the specification from the history of registrations, endings and enableBLOBs alone
                 qs.append(Query("spec deliveries %d %s" % (idx, "%d %s" % (idx + 1, " ".join(ops[:idx + 1]))), " ".join(o["recipients"]), "oracle",
                                 "device traffic of step %d %r did not reach exactly the connections that are open and entitled to it" % (n, st)))
@@ -333,6 +369,15 @@ def run_impl(case, outcome):
             qs.append(Query("spec c12conn %s %s %s" % tuple("True" if b else "False" for b in (registered, is_open, running)), "True", "oracle",
                             "after step %d %r the sending connection is registered=%s open=%s serving=%s" % (n, case["script"][n][:3], registered, is_open, running)))
     return [q for q in qs if q is not None]
+
+
+# client messages with attributes the classes do not model (names that collide with the library's internals): still valid
+# messages, to be routed like any other of their kind
+ODD_BUT_VALID = {
+    '<newTextVector device="A" name="P" from_client=""><oneText name="e">v</oneText></newTextVector>': ["newTextVector", "A", None],
+    '<newTextVector device="A" name="P" from_device="x" children="y"><oneText name="e">v</oneText></newTextVector>': ["newTextVector", "A", None],
+    '<getProperties version="1.7" from_client="" from_device="" tag_name="x" to_xml="y"/>': ["getProperties", None, None],
+}
 
 
 def gen_cases(rng, tier):
@@ -412,13 +457,29 @@ def gen_cases(rng, tier):
                '<newTextVector device="A" name="P"><oneText name="e">caf\xe9 \xff</oneText></newTextVector>', '<message device="A" message="hi"/>',
                '<getProperties version="1.7" device=""/>', '<getProperties version="1.7.1"/>', '<getProperties version="v2" device="A"/>', '<getProperties version=""/>',
                '<getProperties version="1,7" device="A" name="P"/>', '<getProperties/>', '<getProperties version="nan"/>',
-               '<newTextVector device="A" name="P" timestamp="not a time"><oneText name="e">v</oneText></newTextVector>', '<newTextVector device="" name="P"><oneText name="e">v</oneText></newTextVector>']
+               '<newTextVector device="A" name="P" timestamp="not a time"><oneText name="e">v</oneText></newTextVector>',
+               '<newTextVector device="A" name="P" from_client=""><oneText name="e">v</oneText></newTextVector>',
+               '<newTextVector device="A" name="P" from_device="x" children="y"><oneText name="e">v</oneText></newTextVector>',
+               '<getProperties version="1.7" from_client="" from_device="" tag_name="x" to_xml="y"/>', '<newTextVector device="" name="P"><oneText name="e">v</oneText></newTextVector>']
+    # the same with the log-forwarding handler of the example servers installed, and names a logging format string would choke on
+    pct = ['<newTextVector device="A" name="P"><oneText name="GAIN_%">v</oneText></newTextVector>',
+           '<newTextVector device="A" name="%s"><oneText name="e">v</oneText></newTextVector>',
+           '<newNumberVector device="A" name="P"><oneNumber name="%(x)s">1</oneNumber></newNumberVector>',
+           '<newSwitchVector device="A" name="P"><oneSwitch name="100%">On</oneSwitch></newSwitchVector>',
+           '<newTextVector device="%d" name="P"><oneText name="e">%</oneText></newTextVector>']
+    for hmsg in pct + hostile[:6]:
+        base = base_script(2)
+        pos = len(base) // 2
+        script = base[:pos] + [["recv", 0, hmsg]] + base[pos:] + [["recv", 0, client_message_xml("newTextVector", "A", k=5), ["newTextVector", "A", None]], ["dev", 1, "setTextVector", "B"]]
+        yield {"op": "conn", "script": script, "hostile": True, "loghandler": True}
+    hostile = hostile + pct
     for n in (2,):
         base = base_script(n)
         for hmsg in hostile:
             for pos in ([n, len(base) // 2, len(base)] if not thorough else range(n, len(base) + 1)):
-                script = base[:pos] + [["recv", 0, hmsg]] + base[pos:] + [["recv", 0, client_message_xml("enableBLOB", "B", "Also"), ["enableBLOB", "B", "Also"]],
-                                                                        ["dev", 1, "setBLOBVector", "B"]]
+                step = ["recv", 0, hmsg] + ([ODD_BUT_VALID[hmsg]] if hmsg in ODD_BUT_VALID else [])
+                script = base[:pos] + [step] + base[pos:] + [["recv", 0, client_message_xml("enableBLOB", "B", "Also"), ["enableBLOB", "B", "Also"]],
+                                                               ["dev", 1, "setBLOBVector", "B"]]
                 yield {"op": "conn", "script": script, "hostile": True}
 
 
